@@ -446,6 +446,9 @@ Definition exec_fs (a : args) (w : world) (gens : list generator) (s : fs) : fs 
 
 End WithEnv.
 
+Arguments ro_state {S}. Arguments ro_body {S}. Arguments ro_ignore {S}.
+Arguments ro_defers {S}. Arguments ro_trace {S}. Arguments ro_out {S}.
+
 (* ---------- a byte-level sumfile (Load: bytes.Lines + bytes.Fields on ASCII white space; Bytes: sorted keys),
    used to instantiate [env] in case files.  The C08 check owns the detailed sumfile model. ---------- *)
 
